@@ -163,13 +163,13 @@ var prop = &ev.Prop[Case]{Sub: "parsers", Quick: 150000, Thorough: 6000000, Gen:
 // builder twins
 
 type BuildCase struct {
-	Sig     int    `json:"sig"`
-	Enc     int    `json:"enc"`
-	CType   int    `json:"ctype"`
-	Payload string `json:"payload_hex"`
-	Str     string `json:"str_hex"`
-	Value   int64  `json:"value"`
-	Size    int    `json:"size"`
+	Sig     int           `json:"sig"`
+	Enc     int           `json:"enc"`
+	CType   int           `json:"ctype"`
+	Payload string        `json:"payload_hex"`
+	Str     string        `json:"str_hex"`
+	Value   int64         `json:"value"`
+	Size    int           `json:"size"`
 	Ident   gen.IdentSpec `json:"ident"`
 }
 
